@@ -193,7 +193,7 @@ def instance2Holds (rate : Option Rat) (F : Midgard.Spec.Rinex2ObsFile.File) : B
   | .error a, .error b => a == b
   | _, _ => false
 
-/-- `wf=` reports `F.wf` together with the evaluated header hypothesis `hdrOk2` of `file_roundtrip2_partial` -/
+/-- `wf=` reports `F.wf` together with the header test `hdrOk2` (a consequence of `F.wf`: `hdr_ok2` in `Props/C11.lean`; still evaluated) -/
 def file2 (rate : Option Rat) (F : Midgard.Spec.Rinex2ObsFile.File) : String :=
   let out := match Midgard.Spec.Rinex2ObsFile.expected rate F with
     | .error e => showErr e
